@@ -574,8 +574,13 @@ func (ex *Explorer) killByCall(st *State, cc *ssa.CallCommon) {
 	if fn := cc.StaticCallee(); fn != nil && FirstParty(fn) {
 		first = true
 	}
-	for _, a := range args {
+	callee := cc.StaticCallee()
+	for i, a := range args {
 		if !pointerLike(a.Type()) {
+			continue
+		}
+		// a callee that provably never writes through this parameter leaves the memory below it alone
+		if callee != nil && !cc.IsInvoke() && len(callee.Blocks) > 0 && i < len(callee.Params) && !writesThroughParam(callee, i, 0) {
 			continue
 		}
 		s := strings.TrimPrefix(ex.Canon(st, a).S, "&")
@@ -989,10 +994,17 @@ func globalNeverNil(p *Program, g *ssa.Global) bool {
 	if len(stores) == 0 {
 		return false
 	}
+	inInit := false
 	for _, s := range stores {
 		if !definitelyNonNil(s.Val) {
 			return false
 		}
+		if s.Parent().Name() == "init" && s.Parent().Synthetic != "" {
+			inInit = true // has an initialiser: never observed in its zero state
+		}
+	}
+	if !inInit {
+		return false
 	}
 	globalNeverNilMemo[g] = 1
 	return true
@@ -1052,4 +1064,138 @@ func (ex *Explorer) resolveKeepBox(st *State, v ssa.Value) ssa.Value {
 		return v
 	}
 	return v
+}
+
+var wtpMemo = map[string]int{}
+
+// writesThroughParam: fn (or something it passes the parameter to) may store
+// into memory reachable from its i-th parameter. Conservative: unknown callees,
+// dynamic calls and escaping uses count as writes.
+func writesThroughParam(fn *ssa.Function, i int, depth int) bool {
+	k := fmt.Sprintf("%s#%d", fn.String(), i)
+	if v, ok := wtpMemo[k]; ok {
+		return v == 1
+	}
+	wtpMemo[k] = 1 // assume the worst while computing (recursion)
+	if depth > 4 || len(fn.Blocks) == 0 || i >= len(fn.Params) {
+		return true
+	}
+	p := fn.Params[i]
+	// values derived from the parameter by address arithmetic / loads of pointers
+	derived := map[ssa.Value]bool{p: true}
+	changed := true
+	for changed {
+		changed = false
+		for _, b := range fn.Blocks {
+			for _, in := range b.Instrs {
+				v, ok := in.(ssa.Value)
+				if !ok || derived[v] {
+					continue
+				}
+				switch x := in.(type) {
+				case *ssa.FieldAddr:
+					if derived[x.X] {
+						derived[v], changed = true, true
+					}
+				case *ssa.IndexAddr:
+					if derived[x.X] {
+						derived[v], changed = true, true
+					}
+				case *ssa.Slice:
+					if derived[x.X] {
+						derived[v], changed = true, true
+					}
+				case *ssa.UnOp:
+					if x.Op == token.MUL && derived[x.X] && pointerLike(x.Type()) {
+						derived[v], changed = true, true
+					}
+				case *ssa.Phi:
+					for _, e := range x.Edges {
+						if derived[e] {
+							derived[v], changed = true, true
+						}
+					}
+				case *ssa.ChangeType:
+					if derived[x.X] {
+						derived[v], changed = true, true
+					}
+				case *ssa.MakeInterface:
+					if derived[x.X] {
+						derived[v], changed = true, true
+					}
+				case *ssa.Field:
+					if derived[x.X] && pointerLike(x.Type()) {
+						derived[v], changed = true, true
+					}
+				}
+			}
+		}
+	}
+	res := false
+	for _, b := range fn.Blocks {
+		for _, in := range b.Instrs {
+			switch x := in.(type) {
+			case *ssa.Store:
+				if derived[x.Addr] {
+					res = true
+				}
+				if derived[x.Val] && pointerLike(x.Val.Type()) {
+					res = true // escapes into memory
+				}
+			case *ssa.MapUpdate:
+				if derived[x.Map] {
+					res = true
+				}
+			case *ssa.Send:
+				if derived[x.X] {
+					res = true
+				}
+			case ssa.CallInstruction:
+				cc := x.Common()
+				args := cc.Args
+				if cc.IsInvoke() {
+					args = append([]ssa.Value{cc.Value}, cc.Args...)
+				}
+				for j, a := range args {
+					if !derived[a] {
+						continue
+					}
+					if b, ok := cc.Value.(*ssa.Builtin); ok {
+						switch b.Name() {
+						case "len", "cap", "append", "print", "println":
+							continue
+						case "copy":
+							if j == 0 {
+								res = true
+							}
+							continue
+						}
+					}
+					if harmlessCallee(cc) {
+						continue
+					}
+					g := cc.StaticCallee()
+					if g == nil || cc.IsInvoke() {
+						res = true
+						continue
+					}
+					if writesThroughParam(g, j, depth+1) {
+						res = true
+					}
+				}
+			case *ssa.MakeClosure:
+				for _, bnd := range x.Bindings {
+					if derived[bnd] {
+						res = true
+					}
+				}
+			}
+		}
+	}
+	if res {
+		wtpMemo[k] = 1
+	} else {
+		wtpMemo[k] = 0
+	}
+	return res
 }
